@@ -192,3 +192,48 @@ func partsIndependent(g orb.Geometry) bool {
 	fill(g)
 	return refmodel.EqualBits(g, snap)
 }
+
+// eachRing calls f for every ring of g (a Ring, the rings of polygons and multi-polygons, at any depth of collections).
+func eachRing(g orb.Geometry, f func(orb.Ring)) {
+	switch v := g.(type) {
+	case orb.Ring:
+		f(v)
+	case orb.Polygon:
+		for _, r := range v {
+			f(r)
+		}
+	case orb.MultiPolygon:
+		for _, p := range v {
+			for _, r := range p {
+				f(r)
+			}
+		}
+	case orb.Collection:
+		for _, m := range v {
+			eachRing(m, f)
+		}
+	}
+}
+
+// zeroSpelledClosure rewrites some rings of g in place so that the closing vertex equals the first under == while its
+// bits differ: one carries +0 where the other carries -0 (both finite float64 values; Ring.Closed() reports true).
+func zeroSpelledClosure(r *h.Rand, g orb.Geometry) (n int) {
+	eachRing(g, func(rg orb.Ring) {
+		if len(rg) < 4 || !r.Bool() {
+			return
+		}
+		ax := r.Intn(2)
+		z := 0.0
+		if r.Bool() {
+			z = math.Copysign(0, -1)
+		}
+		rg[0][ax] = z
+		rg[len(rg)-1] = rg[0]
+		rg[len(rg)-1][ax] = -z
+		if r.P(1, 3) {
+			rg[0][1-ax], rg[len(rg)-1][1-ax] = math.Copysign(0, -1), 0
+		}
+		n++
+	})
+	return n
+}
